@@ -370,6 +370,10 @@ thread_local! { static DISPOSE_ON_VALUE: std::cell::Cell<bool> = const { std::ce
 // mode `resourceself`: the fetch future itself, as its last step (after its await point), moves the dependency on to this
 // value (once it differs): the fetch is superseded WHILE IT IS FINISHING, too late for the abort to stop it
 thread_local! { static SELF_WRITE: std::cell::Cell<Option<u32>> = const { std::cell::Cell::new(None) }; }
+// mode `resourcebo`: the resource is created under a suspense boundary of its own, and an observer of THAT boundary moves an odd
+// dependency value on to the next one whenever the boundary starts loading (i.e. when a fetch starts while none is outstanding):
+// the boundary is suspended before the fetch function reads its dependencies, so the fetch is one for the moved value
+thread_local! { static BOUNDARY_OBS: std::cell::Cell<bool> = const { std::cell::Cell::new(false) }; }
 thread_local! { static WRITE_ON_RESOLVE: std::cell::Cell<Option<u32>> = const { std::cell::Cell::new(None) }; }
 
 /// `fl`: a subscriber of `is_loading` that moves an odd dependency on to the next value whenever a load is announced
@@ -391,12 +395,21 @@ fn run_resource_opt(dep0: u32, fb: Option<u32>, fl: bool, events: &[String]) -> 
             scope = Some(create_child_scope(|| {
                 let txs = txs.clone();
                 let selfw = SELF_WRITE.with(|o| o.get());
-                res = Some(create_isomorphic_resource(on(d, move || {
+                let mk = move || create_isomorphic_resource(on(d, move || {
                     let v = d.get_untracked();
                     let (tx, rx) = oneshot::channel::<()>();
                     let k = { let mut t = txs.borrow_mut(); t.push(Some(tx)); t.len() as u32 };
                     async move { let _ = rx.await; if let Some(c) = selfw { if d.get_untracked() != c { d.set(c); } } (k, v) }
-                })));
+                }));
+                if BOUNDARY_OBS.with(|o| o.get()) {
+                    let _ = create_suspense_scope(|| {
+                        let loading = try_use_context::<SuspenseScope>().expect("suspense scope in context").is_loading();
+                        create_effect(move || { if loading.get() && d.get_untracked() % 2 == 1 { d.set(d.get_untracked() + 1); } });
+                        res = Some(mk());
+                    });
+                } else {
+                    res = Some(mk());
+                }
                 if fl {
                     let r = *res.as_ref().unwrap();
                     create_effect(move || {
@@ -438,6 +451,9 @@ fn run_resource_opt(dep0: u32, fb: Option<u32>, fl: bool, events: &[String]) -> 
         let vtasks: Rc<RefCell<Vec<Option<oneshot::Sender<()>>>>> = Default::default();
         let mut alive = true;
         // harness bookkeeping for the oracle
+        let bo = BOUNDARY_OBS.with(|o| o.get());
+        // (mode resourcebo: the boundary starts loading at the creation: an odd initial value is moved on before the first fetch reads it)
+        let dep0 = if bo && dep0 % 2 == 1 { dep0 + 1 } else { dep0 };
         let (mut started, mut latest_dep, mut completed, mut value): (u32, u32, bool, Option<(u32, u32)>) = (1, dep0, false, None);
         let mut cur_dep = dep0;
         let rs2 = reader_sel.clone();
@@ -510,6 +526,8 @@ fn run_resource_opt(dep0: u32, fb: Option<u32>, fl: bool, events: &[String]) -> 
                     latest_dep = v.parse().unwrap();
                     // the is_loading subscriber moves an odd value on before the fetch function reads it
                     if fl && latest_dep % 2 == 1 { latest_dep += 1; }
+                    // the boundary observer does so only when the boundary STARTS loading (no fetch was outstanding)
+                    if bo && completed && latest_dep % 2 == 1 { latest_dep += 1; }
                     cur_dep = latest_dep;
                     completed = false;
                 }
@@ -588,6 +606,13 @@ pub fn exec(line: &str) -> (String, Option<String>, bool) {
         let (o, v) = run_resource(d.parse().unwrap(), None, &evs);
         DISPOSE_ON_VALUE.with(|o| o.set(false));
         OBSERVE_READERS.with(|o| o.set(false));
+        (o, v, evs.len() >= 2)
+    } else if let Some(r) = rest.strip_prefix("resourcebo ") {
+        let (d, evs) = r.split_once(' ').unwrap();
+        let evs: Vec<String> = if evs == "-" { vec![] } else { evs.split(',').map(|s| s.to_string()).collect() };
+        BOUNDARY_OBS.with(|o| o.set(true));
+        let (o, v) = run_resource(d.parse().unwrap(), None, &evs);
+        BOUNDARY_OBS.with(|o| o.set(false));
         (o, v, evs.len() >= 2)
     } else if let Some(r) = rest.strip_prefix("resourceself ") {
         let mut it = r.splitn(3, ' ');
@@ -1006,7 +1031,13 @@ pub fn generate(args: &Args) -> Vec<String> {
             let mut wv = 10; // written values alternate odd / even
             let evs: Vec<String> = s.iter().map(|e| if *e == "w" { wv += 1; format!("w{wv}") } else { e.to_string() }).collect();
             l.push(format!("async resourcefl 8 {}", evs.join(",")));
+            // … and with an observer of the resource's OWN boundary that does so when the boundary starts loading (initial
+            // values odd and even: the boundary starts loading at the creation)
+            l.push(format!("async resourcebo 8 {}", evs.join(",")));
+            l.push(format!("async resourcebo 7 {}", evs.join(",")));
         }
+        l.push("async resourcebo 7 f1".into());
+        l.push("async resourcebo 7 -".into());
     }
     // C15: the resource is read under boundaries that come and go (the resource re-suspends every boundary it
     // was read under when it is fetched again)
